@@ -1,6 +1,7 @@
 SPECIFICATION SwitchSpec
 CONSTANTS
   NoRefresh = "norefresh"
+  AsIsNoContain = FALSE
   MaxN = 4
   MaxDepth = 0
 VIEW View
